@@ -195,12 +195,13 @@ type Op struct {
 	T  int    `json:"t,omitempty"`  // apply: 1 proposer, 0 validator
 	S  int    `json:"s,omitempty"`  // amount class
 	By int    `json:"by,omitempty"` // 0 = the miner's current account, 1 = another account
+	P  int    `json:"p,omitempty"`  // apply: 1 = the stake is paid by the other of a1/a2
 }
 
 func (o Op) String() string {
 	switch o.K {
 	case "apply":
-		return fmt.Sprintf("apply(m%d,a%d,%s,%s)", o.M+1, o.A+1, []string{"validator", "proposer"}[o.T], []string{"min-1", "min", "2min"}[o.S])
+		return fmt.Sprintf("apply(m%d,a%d,%s,%s%s)", o.M+1, o.A+1, []string{"validator", "proposer"}[o.T], []string{"min-1", "min", "2min"}[o.S], []string{"", ",paid by the other account"}[o.P])
 	case "add":
 		return fmt.Sprintf("add(m%d,%s,%s)", o.M+1, []string{"0", "1", "balance+1", "min"}[o.S], []string{"owner", "stranger"}[o.By])
 	case "refund":
@@ -235,6 +236,13 @@ func alphabet(thorough bool) []Op {
 				for s := 0; s < 3; s++ {
 					ops = append(ops, Op{K: "apply", M: m, A: a, T: t, S: s})
 				}
+			}
+		}
+	}
+	if thorough {
+		for m := 0; m < 2; m++ {
+			for a := 0; a < 2; a++ {
+				ops = append(ops, Op{K: "apply", M: m, A: a, T: 0, S: 1, P: 1})
 			}
 		}
 	}
@@ -297,7 +305,7 @@ func resolve(o Op, m *refminers.Model) refminers.Tx {
 	case "apply":
 		typ := byte(o.T)
 		min := rules.MinStake[typ]
-		return refminers.Tx{Kind: "apply", Source: acctHex[o.A], Account: acctHex[o.A], ID: id, Type: typ,
+		return refminers.Tx{Kind: "apply", Source: acctHex[(o.A+o.P)%2], Account: acctHex[o.A], ID: id, Type: typ,
 			Amount: []uint64{min - 1, min, 2 * min}[o.S], PK: "aa" + id[:8], VRF: "bb" + id[:8]}
 	case "add":
 		src := actor(m, id, o.By)
